@@ -388,3 +388,5 @@ def run(chk, S: Session):
     borrow(chk, S, rb, "C07", lambda r, c: r == "R-C07-5")
     borrow(chk, S, rb, "C11", lambda r, c: r == "R-C11-5" and "damping" in c)
     borrow(chk, S, rb, "C08", lambda r, c: r == "R-C08-5" and "hands its solve to the kernel" in c)
+    # the three models must treat a Taylor-coefficient pytree with mixed leaf dtypes alike (promote, never cast back per leaf)
+    borrow(chk, S, rb, "C20", lambda r, c: r == "R-C20-4" and "from_example" in c)
